@@ -6,6 +6,7 @@
 package main
 
 import (
+	"os"
 	"bytes"
 	"context"
 	"fmt"
@@ -209,7 +210,15 @@ func runCase(env *vlib.Env, idx int, rep *vlib.Reporter) {
 		if r.Chance(1, 2) {
 			src := eids[r.Intn(6)]
 			other := sets[r.Intn(3)]
-			if other == src.set {
+			dup := other == src.set
+			for _, x := range eids {
+				// one registration per (keyper set, identity): a second one would be dropped by the
+				// database and must not get a firing history of its own
+				if x.set == other && bytes.Equal(x.identity, src.identity) {
+					dup = true
+				}
+			}
+			if dup {
 				continue
 			}
 			e := &eventID{set: other, identity: src.identity, prefix: src.prefix, sender: src.sender, expiry: int64(2 + r.Intn(10))}
@@ -565,6 +574,36 @@ func judge(tr *epochkghandler.DecryptionTrigger, snap *pgmem.Snapshot, sets []*s
 			rep.Obs("triggers_"+kind, 1)
 			return ""
 		}
+	}
+	if os.Getenv("VERIF_DEBUG") != "" {
+		f, _ := os.OpenFile(os.Getenv("VERIF_DEBUG"), os.O_CREATE|os.O_APPEND|os.O_WRONLY, 0o644)
+		fmt.Fprintf(f, "TRIGGER block=%d ids=%d observed-block=%d\n", tr.BlockNumber, len(tr.IdentityPreimages), b.Number())
+		for _, si := range sets {
+			fmt.Fprintf(f, "  set cfg=%d state=%s member=%t act=%d eons=%v\n", si.cfg, si.state, si.member, si.activation, si.eons)
+		}
+		for i, x := range tr.IdentityPreimages {
+			fmt.Fprintf(f, "  id %x reasons:", x[:4])
+			for si, why := range reasons[i] {
+				fmt.Fprintf(f, " cfg%d=%q", si.cfg, why)
+			}
+			fmt.Fprintln(f)
+			for _, row := range rowsE {
+				if bytes.Equal(row["identity"].([]byte), x) {
+					fmt.Fprintf(f, "    E row eon=%v exp=%v decrypted=%v block=%v\n", row["eon"], row["expiration_block_number"], row["decrypted"], row["block_number"])
+				}
+			}
+			for _, row := range rowsF {
+				if bytes.Equal(row["identity"].([]byte), x) {
+					fmt.Fprintf(f, "    F row eon=%v block=%v\n", row["eon"], row["block_number"])
+				}
+			}
+		}
+		for _, t := range []string{"eons", "dkg_result"} {
+			for _, row := range snap.Rows(t) {
+				fmt.Fprintf(f, "  %s %v\n", t, row)
+			}
+		}
+		f.Close()
 	}
 	// not justified: name the most specific reason
 	for i := range reasons {
